@@ -272,7 +272,9 @@ def run(prog: Program, rep: Report, tier: str):
     c2 = R2.fa.cfg
     guards = [t for t, lab in c2.control_predicates(R2.passes[0].iter_node) if c2.nodes[t].kind == "test"]
     it2 = R2.fa.sym.term(R2.cfg_loop.iter, R2.cfg_iter)
-    ok = not guards and it2 in (("self", "configs"), ("call", ("global", "enumerate"), (("self", "configs"),), ())) \
+    ok = not guards and (it2 in (("self", "configs"), ("call", ("global", "enumerate"), (("self", "configs"),), ())) or (
+        it2[0] == "call" and it2[1] == ("global", "zip") and not it2[3] and ("self", "configs") in it2[2]
+        and all(a_[0] == "self" for a_ in it2[2]))) \
         and not [n for n, nd in c2.nodes.items() if nd.kind == "stmt" and isinstance(nd.ast, (ast.Break, ast.Return,
                                                                                               ast.Continue))]
     rep.decide(ok, "G8.eval-all", R2.fi, "unconditional", "every config is iterated unconditionally, in order",
